@@ -368,6 +368,9 @@ def directed_cases(ck):
 
 
 def run(ck):
+    # the identities that entitle the placement families to their oracle (differences, determinant ratios, squared lengths, extreme coordinates), for all integers
+    ck.apalache('MC_Placement', 'Inv')
+    ck.apalache('MC_Placement', 'Wrong', expect_error=True)
     rnd = random.Random(ck.seed)
     directed_cases(ck)
     quick = ck.tier == 'quick'
